@@ -92,7 +92,8 @@ def h_server_order(n: int, for_upload: bool,
     """
     pre: n == B.get("n", 3)
     pre: B.get("for_upload") is None or for_upload == B["for_upload"]
-    pre: h0 != h1 and h0 != h2 and h0 != h3 and h1 != h2 and h1 != h3 and h2 != h3
+    pre: (h0 != h1 or B.get("tie", False)) and h0 != h2 and h0 != h3 and h1 != h2 and h1 != h3 and h2 != h3
+    pre: (not B.get("tie", False)) or h0 == h1
     pre: (not B.get("uniform_verifier", False)) or (v0 == v1 and v1 == v2 and v2 == v3)
     post: _ == True
     """
@@ -134,7 +135,10 @@ def h_server_order(n: int, for_upload: bool,
     finally:
         sc.permute_server_hash = saved
     res = results[0]
-    if results[1] != res:
+    tie = bool(B.get("tie", False))
+    # tie case: servers 0 and 1 announce the same permutation seed (cloned / misconfigured servers): both must still be
+    # listed; their relative order is unspecified, so the two clients are compared by hash value instead of identity
+    if ([hval[i] for i in results[1]] != [hval[i] for i in res]) if tie else (results[1] != res):
         return "two clients with the same server set computed different orders"
     # independent statement of the expected sequence
     for i in range(n):
@@ -149,7 +153,7 @@ def h_server_order(n: int, for_upload: bool,
             if pref[x] != pref[y]:
                 if not pref[x]:
                     return "an unpreferred server is listed before a preferred one"
-            elif not (hval[x] < hval[y]):
+            elif not ((hval[x] <= hval[y]) if tie else (hval[x] < hval[y])):
                 return "servers of the same preference class are not in hash order"
     return True
 
